@@ -57,6 +57,7 @@ struct Rec {
     bool null_ok = false;    // OK with null pointer
     std::vector<std::pair<std::string, std::string>> scan_out; // scan result (key, bytes or "<null>")
     ykc::NvVec nv;
+    std::vector<std::pair<const char*, std::string>> held; // value pointers handed out, with the bytes they showed then
     bool done = false;
 };
 
@@ -260,6 +261,7 @@ public:
                     r.st = g.st;
                     r.bytes = g.bytes;
                     r.null_ok = g.null_ok;
+                    if (g.st == status::OK && g.ptr != nullptr) r.held.emplace_back(g.ptr, g.bytes);
                     break;
                 }
                 case PUT: r.st = ykc::t_put(tokens[size_t(tid)], ti, o.key, ykc::val_of(o.key, o.gen), false); break;
@@ -295,6 +297,7 @@ public:
                             if (gen > 0 && gen < 10) bytes.assign(c, n + size_t(gen));
                         }
                         r.scan_out.emplace_back(k, bytes);
+                        if (val != nullptr) r.held.emplace_back(static_cast<const char*>(val), bytes);
                         st = iscan_next(ctx, val, cb);
                     }
                     r.st = st;
@@ -309,6 +312,7 @@ public:
                             r.scan_out.emplace_back(std::get<0>(t), "<null>");
                         } else {
                             r.scan_out.emplace_back(std::get<0>(t), std::string(std::get<1>(t), std::get<2>(t)));
+                            r.held.emplace_back(std::get<1>(t), r.scan_out.back().second);
                         }
                     }
                     break;
@@ -421,6 +425,27 @@ public:
                 }
             }
         }
+        // C05 on top of the concurrent execution: a scan whose collected pairs are all still current at the end promises that a LATER
+        // insert into its interval changes one of them. Probe it: insert each absent candidate key of the interval in turn.
+        if ((oracles & O_PHANTOM) != 0 && r.verdict == ykmc::V_OK && w.errors.empty()) {
+            for (auto* s : scans) probe_later_inserts(r, *s, final_model, points, w.nodes.size());
+        }
+        // every session of this execution is still open: a value pointer handed out by get / scan / iscan must still show the bytes
+        // it showed when it was handed out (an overwrite installs a new copy and retires the old one; nothing is reclaimed before
+        // the sessions leave). Freed blocks are quarantined and poisoned by the allocation monitor, so the read itself is safe.
+        if ((oracles & (O_LIN | O_SCAN)) != 0) {
+            for (auto& tr : recs) {
+                for (auto& rc : tr) {
+                    for (auto& h : rc.held) {
+                        if (memcmp(h.first, h.second.data(), h.second.size()) != 0) {
+                            fail(r, "value:changed_while_session_open",
+                                 op_name(rc.op) + " of T" + std::to_string(rc.tid) + " was handed a value that read " + ykc::hex(h.second) + " and reads " +
+                                         ykc::hex(std::string(h.first, h.second.size())) + " before the session has left");
+                        }
+                    }
+                }
+            }
+        }
         // teardown
         for (auto& t : tokens) leave(t);
         leave(setup_token);
@@ -509,6 +534,58 @@ public:
                 fail(r, std::string(pf) + (it != got.end() ? ":stale_or_foreign_value" : ":lost_key"), e);
                 return;
             }
+        }
+    }
+
+    void probe_later_inserts(ykmc::ExecResult& r, const Rec& s, const Model& final_model, const std::vector<const Rec*>& points, std::size_t node_count) {
+        if (!s.op.want_nv || s.op.kind != SCAN || s.st != status::OK || s.op.max != 0 || s.nv.empty()) return;
+        auto all_current = [&]() {
+            for (auto& pr : s.nv) {
+                auto info = ykalloc::lookup(pr.second);
+                if (info.found && !info.live) return false;
+                if (pr.second->get_stable_version() != pr.first) return false;
+            }
+            return true;
+        };
+        // a set that is already stale makes the reader abort: nothing left to promise
+        if (!all_current()) return;
+        std::set<std::string> cand;
+        for (auto& kv : shape.pal) cand.insert(kv.second);
+        for (auto& kv : init_model) {
+            cand.insert(kv.first + "5");
+            cand.insert(kv.first);
+        }
+        for (auto* p : points) cand.insert(p->op.key);
+        cand.insert("00");
+        cand.insert("zzz");
+        std::vector<node_version64_body> base;
+        for (auto& k : cand) {
+            if (final_model.count(k) != 0 || !key_in_range(k, s.op)) continue;
+            base.clear();
+            for (auto& pr : s.nv) base.push_back(pr.second->get_stable_version());
+            std::size_t retired_before = retired_nodes.size();
+            inserted_node_info info{};
+            status ps = ykc::t_put(setup_token, ti, k, ykc::val_of(k, 1), true, &info);
+            if (ps != status::OK) {
+                fail(r, "phantom:probe_insert_failed", "unique insert of the absent key " + ykc::hex(k) + " after the execution returned " + ykc::st_name(ps));
+                return;
+            }
+            bool bumped = false;
+            for (std::size_t i = 0; i < s.nv.size(); ++i) {
+                if (s.nv[i].second->get_stable_version() != base[i]) bumped = true;
+            }
+            if (!bumped) {
+                fail(r, "phantom:undetected_later_insert",
+                     "all " + std::to_string(s.nv.size()) + " node versions collected by " + op_name(s.op) + " were still current when the execution ended, and a later insert of " +
+                             ykc::hex(k) + " (inside the scanned interval) changed none of them");
+                return;
+            }
+            ykc::t_remove(setup_token, ti, k);
+            // continue with the next candidate only if the probe left the node structure as it was (then the nodes cover the same ranges
+            // and the comparison against their current versions is the comparison the scan's own pairs would have given)
+            ykc::WalkOut w2;
+            ykc::walk_tree(w2, ti);
+            if (info.created_nvp != nullptr || retired_nodes.size() != retired_before || w2.nodes.size() != node_count || !w2.errors.empty()) return;
         }
     }
 
